@@ -74,7 +74,10 @@ def new_fs(ex, cls=None):
         from simfile._private.nativeosfs import NativeOSFS
         cls = NativeOSFS
     fs_of(ex)
-    return HObj(cls, {}, cls.__name__)
+    o = HObj(cls, {}, cls.__name__)
+    if getattr(ex, "depth", 0) == 0 and "caller_fs" not in ex.ghost:
+        ex.ghost["caller_fs"] = o        # the first filesystem a unit creates is the one it passes as filesystem=
+    return o
 
 
 def _fs_new(ex, cls, args, kwargs):
@@ -165,9 +168,27 @@ def _with_exit(ex, cm, exc):
 M.WITH_HOOKS.append((_with_enter, _with_exit))
 
 
+def _through_callers_fs(ex, name, recv):
+    """frame obligation at every file-system operation: it goes through the filesystem object the unit handed to the function
+    under contract (the ghost store is one array; in reality a default NativeOSFS() and the caller's filesystem are different stores)"""
+    ex.ghost.setdefault("fs_receivers", []).append((name, recv))
+    mine = ex.ghost.get("caller_fs")
+    if mine is not None:
+        ex.prove("frame:file-system-operations-go-through-the-callers-filesystem", z3.BoolVal(recv is mine),
+                 f"{name}() on {recv.label if hasattr(recv, 'label') else recv!r}; the caller passed {mine.label}")
+
+
+def only_through(ex, fs):
+    """every file-system operation of this path went through the object `fs` (there is one ghost store: an operation on
+    another filesystem object - a default NativeOSFS() instead of the caller's - would touch a different store in reality)"""
+    return all(r is fs for _, r in ex.ghost.get("fs_receivers", []))
+
+
 def _fs_method(ex, recv, name, args, kwargs):
     if not is_fs(recv):
         return NotImplemented
+    if name in ("open", "listdir", "isdir", "exists"):
+        _through_callers_fs(ex, name, recv)
     if name == "open":
         return fs_open(ex, args, kwargs)
     if name == "listdir":
@@ -205,6 +226,7 @@ def install(ex=None):
 
 def native_open_contract(ex, args, kwargs):
     """NativeOSFS.open(*args, **kwargs) -> io.open: the same T-FS contract"""
+    _through_callers_fs(ex, "open", args[0])
     return fs_open(ex, args[1:], kwargs)
 
 
